@@ -995,7 +995,7 @@ def class_alternatives(n, typed):
 CLASS_VARIANTS = ("base", "sub", "named")
 
 
-def gen_class_groups(shapes, typed=(False, True), include_d71=False):
+def gen_class_groups(shapes, typed=(False, True), include_d71=True):
     """copies between trees of DIFFERENT classes: source / target in {Tree | TypedTree, a trivial subclass, a subclass that
     overrides calc_data_id} - every copy route must treat a tree of a sub- or superclass as a tree"""
     def new_op(ty, v):
